@@ -156,6 +156,32 @@ def wl_snapshots(ctx, rng, case):
                 snap.inflight = None
                 snap.boundary(f"after add #{len(added)}")
                 ctx.count("adds_under_snapshots")
+            elif r < 0.66 and k >= 2:
+                # a REFUSED addition: add_alt with a hash list that is too short raises part-way.  It is not a completed addition:
+                # the recorded count must not include it, now or after the next add / export / close (its bits may be there).
+                key = rng.choice(keys)
+                j = rng.randint(0, k - 1)
+                short = refimpl.fnv_chain(gen.to_bytes(key), j)
+                case.op("refused add_alt", key, j)
+                snap.inflight, snap.label = None, "refused add_alt"
+                try:
+                    f.add_alt(short)
+                    refused = False
+                except Exception:
+                    refused = True
+                if refused:
+                    for h in short:
+                        pos = h % m
+                        orc.model.cells[pos // 8] |= 1 << (pos % 8)  # bits written before the failure are tolerated, the count is not
+                    snap.boundary("after a refused add_alt")
+                    ctx.count("refused_additions")
+                else:
+                    # an implementation that accepts a short list has performed an addition of those positions
+                    for h in short:
+                        pos = h % m
+                        orc.model.cells[pos // 8] |= 1 << (pos % 8)
+                    orc.completed += 1
+                    snap.boundary("after add_alt with a short hash list")
             elif r < 0.72:
                 # export to another location, possibly from another working directory
                 os.chdir(rng.choice([cwd0, sc.other, d1]))
@@ -445,15 +471,15 @@ PROP = Prop(
           "reopened. Non-trivial = at least one addition; distinct by hash of (parameters, operations)."),
     workloads=[
         Workload("same_name", wl_same_relative_name, quick=30, thorough=600),
-        Workload("snapshots", wl_snapshots, quick=150, thorough=12000),
+        Workload("snapshots", wl_snapshots, quick=150, thorough=30000),
         Workload("large_file", wl_large_file, quick=8, thorough=300),
-        Workload("kill", wl_kill, quick=4, thorough=48),
+        Workload("kill", wl_kill, quick=4, thorough=96),
     ],
     assumptions=["process kill (SIGKILL): what was written through the mapping or the file descriptor survives in the page cache; power loss is out of scope",
                  "a snapshot through an independent descriptor equals what a kill at that line leaves (validated by the kill workload)",
                  "the hook is armed during add / export / close; creation, reopen and clear are checked at call boundaries only"],
     finish=finish,
     required=["crash_points", "distinct_file_states_validated", "real_kills_validated", "reopens", "exports_under_snapshots", "closes_under_snapshots",
-              "same_relative_name_cases", "reopen.rel_other_cwd", "reopen.abs_other_cwd", "large_file_cases"],
+              "same_relative_name_cases", "reopen.rel_other_cwd", "reopen.abs_other_cwd", "large_file_cases", "refused_additions"],
     shards={"quick": 4, "thorough": 16},
 )
